@@ -343,6 +343,8 @@ class Sim13:
                   "res": "kex" if is_kex else "peering", "response": r.get("response") if isinstance(r.get("response"), (int, str)) else None}
             if r["method"] == "PATCH" and is_peer:
                 rr["payload"] = r.get("payload")
+            if "listed" in r:
+                rr["listed"] = r["listed"]
             w = r.get("watch")
             if w is not None:
                 rr["closed_at"] = getattr(w, "closed_at", None)
@@ -538,6 +540,17 @@ def installed(sim: Sim13) -> Iterator[None]:
 
     fakeapi.FakeSession.request = request  # type: ignore[assignment]
 
+    # ---- what a list of the handled resource really returned (same-instant writes make it unrecoverable later) ----
+    o_serve = fakeapi.FakeSession._serve
+
+    def _serve(self: Any, req: dict, method: str, path: str, query: dict, *a: Any, **k: Any) -> Any:
+        resp = o_serve(self, req, method, path, query, *a, **k)
+        if method == "GET" and "/kopfexamples" in path and resp.watch is None and isinstance(resp.payload, dict) and "items" in resp.payload:
+            req["listed"] = [[it["metadata"].get("name"), it["metadata"].get("resourceVersion")] for it in resp.payload["items"]]
+        return resp
+
+    fakeapi.FakeSession._serve = _serve  # type: ignore[assignment]
+
     # ---- watch close times -------------------------------------------------------------------------
     o_close = fakeapi.FakeResponse.close
 
@@ -564,6 +577,7 @@ def installed(sim: Sim13) -> Iterator[None]:
         processing.process_resource_event = o_pre  # type: ignore[assignment]
         fakeapi.FakeResponse.close = o_close  # type: ignore[assignment]
         fakeapi.FakeSession.request = o_request  # type: ignore[assignment]
+        fakeapi.FakeSession._serve = o_serve  # type: ignore[assignment]
         aiotasks.guard = o_guard  # type: ignore[assignment]
 
 
@@ -867,18 +881,37 @@ def worker_main() -> None:
         if not line:
             continue
         item = json.loads(line)
+        sys.stderr.write(f"@@BEGIN {item['i']}\n")
+        sys.stderr.flush()
         r, w = os.pipe()
-        pid = os.fork()
-        if pid == 0:
-            os.close(r)
+        pid = -1
+        for attempt in range(5):
             try:
-                out = _run_item(item, wall)
-                data = json.dumps(out, default=repr).encode()
-            except BaseException as e:  # noqa: BLE001
-                data = json.dumps({"i": item["i"], "harness_error": f"child failed: {type(e).__name__}: {e}"}).encode()
-            with os.fdopen(w, "wb") as f:
-                f.write(data)
-            os._exit(0)
+                pid = os.fork()
+                break
+            except OSError:
+                import time
+                time.sleep(0.5 * (attempt + 1))
+        if pid < 0:                      # cannot fork right now: run it here (still one result line per item)
+            os.close(r)
+            os.close(w)
+            sys.stdout.write(json.dumps(_run_item(item, wall), default=repr) + "\n")
+            sys.stdout.flush()
+            continue
+        if pid == 0:
+            code = 0
+            try:
+                os.close(r)
+                try:
+                    data = json.dumps(_run_item(item, wall), default=repr).encode()
+                except BaseException as e:  # noqa: BLE001
+                    data = json.dumps({"i": item["i"], "harness_error": f"child failed: {type(e).__name__}: {e}"}).encode()
+                with os.fdopen(w, "wb") as f:
+                    f.write(data)
+            except BaseException:  # noqa: BLE001
+                code = 3
+            finally:
+                os._exit(code)
         os.close(w)
         chunks = []
 
@@ -935,7 +968,8 @@ def _run_batch(items: list[tuple[int, dict]], wall: float, results: dict[int, di
                 results[i] = {"i": i, "harness_error": "worker produced no output", "tb": p.stderr[-2000:]}
             return
         i0, _sc0 = rest[0]
-        tail = p.stderr[p.stderr.rfind(f"@@BEGIN {i0}"):][-6000:]
+        k = p.stderr.rfind(f"@@BEGIN {i0}")
+        tail = (p.stderr[k:] if k >= 0 else p.stderr)[-6000:]
         results[i0] = {"i": i0, "stall": True, "returncode": p.returncode, "stderr": tail}
         pending = rest[1:]
 
